@@ -34,6 +34,16 @@ def parseToks (s : String) : Option (List (Str × Str)) :=
 def parseNames (s : String) : Option (List Str) :=
   if s == "_" then some [] else (s.splitOn ",").mapM parseHex
 
+/-- readable rendering of a byte string (printable ASCII kept) -/
+def ascii (n : Str) : String :=
+  String.ofList (n.map fun c => if 32 ≤ c ∧ c < 127 then Char.ofNat c else '?')
+
+/-- the declarations of a `gram` case as grammar-like text -/
+def renderDecls (toks : List (Str × Str)) (nts : List Str) : String :=
+  "lexemes: " ++ ", ".intercalate (toks.map fun t =>
+      if t.2.isEmpty then ascii t.1 else s!"{ascii t.1} ({ascii t.2})") ++
+    "; nonterminals: " ++ ", ".intercalate (nts.map ascii)
+
 /-- first ID occurring twice -/
 def firstDup : List Str → Option Str
   | [] => none
@@ -41,16 +51,17 @@ def firstDup : List Str → Option Str
 
 /-- ops:
 `ident <style> <name>` → `<id> <tmName> <printable id>`;
-`gram <toks> <nonterms>` → `ok <ids of Syms>` | `err <errors>`;
+`gram <toks> <nonterms>` / `gramf …` (flex mode) → `ok <ids of Syms>` | `err <errors>`;
 `judge <go answer> :: <case>` → does the implementation's answer violate the property? -/
 def handle (args : List String) : Option String :=
   match args with
   | ["ident", st, name] => do
     let st ← parseStyle? st; let name ← parseHex name
     some (showIdent (produce name st) (tmName name))
-  | ["gram", toks, nts] => do
+  | [op, toks, nts] => do
+    if op != "gram" && op != "gramf" then none else
     let toks ← parseToks toks; let nts ← parseNames nts
-    some (showResult (compileSyms ⟨toks, nts⟩))
+    some (showResult (compileSyms ⟨toks, nts, op == "gramf"⟩))
   | ["judge", goId, _, _, "::", "ident", _, name] => do
     let goId ← parseHex goId; let name ← parseHex name
     if tmName name && !validIdent goId then
@@ -58,16 +69,26 @@ def handle (args : List String) : Option String :=
     else some "holds"
   | "judge" :: kind :: rest =>
     match rest with
-    | [ids, "::", "gram", toks, nts] => do
+    | [ids, "::", op, toks, nts] => do
+      if op != "gram" && op != "gramf" then none else
+      let flex := op == "gramf"
       let toks ← parseToks toks; let nts ← parseNames nts
       if kind != "ok" then some "holds" else
       let goIds ← parseNames ids
-      -- judged on the implementation's own IDs (the observable `grammar.Syms[].ID`)
-      let _ := (toks, nts)
-      match firstDup goIds, goIds.find? (fun i => !validIdent i) with
-      | some i, _ => some s!"violates: two symbols of the compiled grammar have the ID `{printable i}` and no error is reported"
-      | _, some i => some s!"violates: a symbol of the compiled grammar has the ID `{printable i}` (empty, blank or not an identifier) and no error is reported"
-      | none, none => some "holds"
+      -- judged on the implementation's own IDs (the observable `grammar.Syms[].ID`): every symbol gets a
+      -- valid identifier in the requested style (terminals upper-case, nonterminals not starting with a
+      -- lower-case letter), distinct symbols get distinct IDs
+      let nTok := (tokenPhase ⟨toks, nts, flex⟩).syms.length
+      let termIds := goIds.take nTok
+      let ntIds := goIds.drop nTok
+      let ctx := " [" ++ renderDecls toks nts ++ "]"
+      match firstDup goIds, goIds.find? (fun i => !validIdent i),
+            termIds.find? (fun i => i.any isLowerA && !(flex && i == cs ['Y','Y','e','r','r','o','r'])), ntIds.find? (fun i => (i.head?.map isLowerA).getD false) with
+      | some i, _, _, _ => some s!"violates: two symbols of the compiled grammar have the ID `{printable i}` and no error is reported{ctx}"
+      | _, some i, _, _ => some s!"violates: a symbol of the compiled grammar has the ID `{printable i}` (empty, blank or not an identifier) and no error is reported{ctx}"
+      | _, _, some i, _ => some s!"violates: a terminal of the compiled grammar has the ID `{printable i}`, which is not in the upper-case style{ctx}"
+      | _, _, _, some i => some s!"violates: a nonterminal of the compiled grammar has the ID `{printable i}`, which starts with a lower-case letter{ctx}"
+      | none, none, none, none => some "holds"
     | _ => none
   | _ => none
 
